@@ -518,6 +518,7 @@ func init() {
 		"internal/race.Acquire", "internal/race.Release", "internal/race.ReleaseMerge", "internal/race.Disable", "internal/race.Enable",
 		"internal/race.Read", "internal/race.Write", "internal/race.ReadRange", "internal/race.WriteRange",
 		"time.Sleep"}, nop)
+	natives["internal/abi.NoEscape"] = func(fr *frame, args []value) value { return args[0] }
 	natives["runtime.Stack"] = func(fr *frame, args []value) value { return 0 }
 	natives["runtime.Caller"] = func(fr *frame, args []value) value { return tuple{uintptr(0), "", 0, false} }
 	natives["runtime.Callers"] = func(fr *frame, args []value) value { return 0 }
@@ -855,6 +856,21 @@ func init() {
 	natives["time.Until"] = func(fr *frame, args []value) value { return int64(0) }
 	natives["(time.Duration).String"] = func(fr *frame, args []value) value { return "<duration>" }
 	natives["(time.Time).String"] = func(fr *frame, args []value) value { return "<time>" }
+
+	// ---- context.WithValue: the real function only adds a reflect-based comparability check
+	natives["context.WithValue"] = func(fr *frame, args []value) value {
+		parent := args[0].(iface)
+		if parent.t == nil {
+			panic(targetPanicStr("cannot create context from nil parent"))
+		}
+		if k := args[1].(iface); k.t == nil {
+			panic(targetPanicStr("nil key"))
+		}
+		ctxPkg := fr.i.prog.ImportedPackage("context")
+		vt := ctxPkg.Type("valueCtx").Type()
+		cell := value(structure{parent, args[1], args[2]})
+		return iface{t: types.NewPointer(vt), v: &cell}
+	}
 
 	// ---- errors
 	natives["errors.Is"] = func(fr *frame, args []value) value { return errorsIs(fr, args[0].(iface), args[1].(iface), 0) }
